@@ -132,7 +132,10 @@ def _classify(diags, asm):
         # spans in generated file
         infos = []
         for s in spans:
-            info = asm.linemap.get(s.get('line_start'))
+            # only spans inside the generated unit file map to extracted code (a span in vstd has its own line numbers)
+            fname = s.get('file_name', '')
+            in_unit = (not fname) or fname.endswith('.rs') and ('/' not in fname or os.path.basename(fname) == os.path.basename(getattr(asm, 'file_name', fname))) and not fname.startswith('std_specs') and 'vstd' not in fname
+            info = asm.linemap.get(s.get('line_start')) if in_unit else None
             infos.append((s, info))
         key = None
         for s, info in infos:
@@ -189,7 +192,7 @@ def _classify(diags, asm):
                     break
             fnlabel = asm.fns[key]['fn'].label
             oid = f'{fnlabel}/arith' + (f'@{site["repo_file"]}:{site["repo_line"]}' if site else '')
-        elif 'invariant' in msg:
+        elif 'invariant' in msg or 'loop ensures' in msg:
             lab = None
             for s, info in infos:
                 if info and info['kind'] == 'loopinv':
@@ -223,7 +226,7 @@ def enumerate_obligations(asm):
             obs.append(dict(id=f'{fn.label}/termination', key=key, fn=fn.label, kind='termination', label='termination',
                             expr=f'the recursion terminates: `{fn.decreases}` decreases at every recursive call'))
         for ordn, spec in fn.loops.items():
-            for (lab, e) in spec.get('invariant', []):
+            for (lab, e) in list(spec.get('invariant', [])) + list(spec.get('ensures', [])):
                 obs.append(dict(id=f'{fn.label}/loopinv:{lab}', key=key, fn=fn.label, kind='loopinv', label=lab, expr=e))
     return obs
 
